@@ -87,7 +87,7 @@ def check_node(n, problems, parent_kind):
         problems.append(f"{k.name} without a marker prefix")
     if k in (NodeKind.TEMPLATE, NodeKind.TEMPLATE_ARG, NodeKind.LINK, NodeKind.URL, NodeKind.PARSER_FN) and not n.largs:
         problems.append(f"{k.name} without arguments")
-    if k == NodeKind.TEMPLATE and hasattr(n, "template_parameters"):
+    if k == NodeKind.TEMPLATE and isinstance(getattr(type(n), "template_parameters", None), property):
         try:
             tp = n.template_parameters
             if not isinstance(tp, dict):
@@ -137,7 +137,11 @@ OPTS = [{}, {"pre_expand": True}, {"expand_all": True}]
 maxlen = 2 if tier == "quick" else 3
 for n in range(1, maxlen + 1):
     for t in itertools.product(TOK, repeat=n):
-        run("".join(t), OPTS[(len(t) + hash(t)) % 3] if tier == "quick" else {}, "soup")
+        if n == 1 or tier != "quick":
+            for o in OPTS:
+                run("".join(t), o, "soup")
+        else:
+            run("".join(t), OPTS[(t.__len__() + sum(map(len, t))) % 3], "soup")
 for _ in range(4000 if tier == "quick" else 150000):
     k = rng.randint(3, 20)
     text = "".join(rng.choice(TOK) for _ in range(k))
